@@ -60,6 +60,11 @@ def cases(rng, tier):
         s = rng.choice(["EKEKGGEKRDGG", "GEKGDKGEKG", "KEKEGGDRKE"])
         nb = rng.choice([2, 3])
         yield Case(["wlrun %s %d 0 1 6000 1/4 501/1000 %d 2600 -" % (s, nb, rng.randint(0, 10 ** 6))], {"kind": "long-first-iteration"})
+    # the SECOND run() on one machine obeys the same rules from the same initial state
+    for i in range(3 if tier == "quick" else 12):
+        s = rng.choice(["EKEKEKRDQGSA", "EKEKGGEKRDGG", "KEKEGGDRKE"])
+        nb = rng.choice([2, 3, 4])
+        yield Case(["wlrun %s %d 0 1 %d 1/4 501/1000 %d 400 - second" % (s, nb, rng.choice([30, 50]), rng.randint(0, 10 ** 6))], {"kind": "second-run-same-machine"})
     # sub-range requests whose bin width is a decimal fraction (1/width is not exactly representable)
     for lo, hi, nb in ((Fraction(1, 2), Fraction(4, 5), 3), (Fraction(1, 10), Fraction(2, 5), 3), (Fraction(3, 5), Fraction(9, 10), 3),
                        (Fraction(7, 10), Fraction(1), 3), (Fraction(1, 5), Fraction(4, 5), 6), (Fraction(3, 10), Fraction(9, 10), 6),
